@@ -38,7 +38,10 @@ package gtab
 //@ spec inMarkSet(k *keepFunc, gid uint16) bool = k.Gdef.MarkGlyphSets != nil && k.Meta.MarkFilteringSet < len(k.Gdef.MarkGlyphSets) && has(k.Gdef.MarkGlyphSets[k.Meta.MarkFilteringSet], gid) && k.Gdef.MarkGlyphSets[k.Meta.MarkFilteringSet][gid]
 //@ spec attachOK(k *keepFunc, gid uint16) bool = k.Gdef.MarkAttachClass != nil && k.Gdef.MarkAttachClass[gid] == (k.Meta.LookupFlags >> 8)
 //@ spec keepMark(k *keepFunc, gid uint16) bool = ite(k.Meta.LookupFlags&8 != 0, false, ite(k.Meta.LookupFlags&16 != 0, inMarkSet(k, gid), ite(k.Meta.LookupFlags&65280 != 0, attachOK(k, gid), true)))
-//@ spec keepSpec(k *keepFunc, gid uint16) bool = ite(k.Gdef.GlyphClass[gid] == 1, k.Meta.LookupFlags&2 == 0, ite(k.Gdef.GlyphClass[gid] == 2, k.Meta.LookupFlags&4 == 0, ite(k.Gdef.GlyphClass[gid] == 3, keepMark(k, gid), true)))
+//@ opaque spec keepSpec(k *keepFunc, gid uint16) bool = ite(k.Gdef.GlyphClass[gid] == 1, k.Meta.LookupFlags&2 == 0, ite(k.Gdef.GlyphClass[gid] == 2, k.Meta.LookupFlags&4 == 0, ite(k.Gdef.GlyphClass[gid] == 3, keepMark(k, gid), true)))
+
+// a glyph takes part in matching iff the lookup flags keep it (no filter: all glyphs)
+//@ pred keptG(k *keepFunc, g uint16) = k == nil || keepSpec(k, g)
 
 //@ func (k *keepFunc) Keep(gid glyph.ID) (keep bool)   props: C06 C07 C16
 //@   requires k != nil ==> k.Meta != nil && k.Gdef != nil
@@ -709,6 +712,9 @@ package gtab
 //@   ensures next >= 0 ==> ctx.stack[old(len(ctx.stack))].InputPos[0] == a && ctx.stack[old(len(ctx.stack))].EndPos == next
 //@   ensures next >= 0 ==> forall k int :: 0 <= k && k + 1 < len(ctx.stack[old(len(ctx.stack))].InputPos) ==> ctx.stack[old(len(ctx.stack))].InputPos[k] < ctx.stack[old(len(ctx.stack))].InputPos[k+1]
 //@   return_assert next >= 0 ==> len(matchPos) == len(rule.Input) + 1
+//@   return_assert next >= 0 ==> forall i int :: 0 <= i && i < len(rule.Input) ==> l.Input[seq[matchPos[i+1]].GID] == rule.Input[i]
+//@   return_assert next >= 0 ==> (forall i3 int :: 1 <= i3 && i3 < len(matchPos) ==> keptG(keep, seq[matchPos[i3]].GID)) && (forall i4 int :: forall q int :: 0 <= i4 && i4 + 1 < len(matchPos) && matchPos[i4] < q && q < matchPos[i4+1] ==> !keptG(keep, seq[q].GID))
+//@   return_assert next >= 0 ==> (next < b ==> keptG(keep, seq[next].GID)) && forall q int :: matchPos[len(matchPos)-1] < q && q < next ==> !keptG(keep, seq[q].GID)
 //@   opt assume_make=1
 //@   modifies ctx.scratch, ctx.stack, ctx.stack[*], ctx.scratch[*], all(nested), allelems(int), allelems(*nested)
 //@   loop 0
@@ -722,14 +728,19 @@ package gtab
 //@     invariant a <= p && p < b && glyphsNeeded >= 0 && glyphsNeeded == len(rule.Input) - iter && len(matchPos) == iter + 1 && matchPos[0] == a && rule != nil
 //@     invariant forall k int :: 0 <= k && k < len(matchPos) ==> a <= matchPos[k] && matchPos[k] <= p
 //@     invariant (forall k2 int :: 0 <= k2 && k2 + 1 < len(matchPos) ==> matchPos[k2] < matchPos[k2+1])
+//@     invariant (forall i2 int :: 1 <= i2 && i2 < len(matchPos) ==> l.Input[seq[matchPos[i2]].GID] == rule.Input[i2-1])
+//@     invariant (forall i3 int :: 1 <= i3 && i3 < len(matchPos) ==> keptG(keep, seq[matchPos[i3]].GID)) && (forall i4 int :: forall q int :: 0 <= i4 && i4 + 1 < len(matchPos) && matchPos[i4] < q && q < matchPos[i4+1] ==> !keptG(keep, seq[q].GID)) && matchPos[len(matchPos)-1] == p
 //@   loop 2
 //@     invariant a < p && p <= b && glyphsNeeded >= 0 && b <= len(seq) && len(seq) == len(ctx.seq) && ref(seq) == ref(ctx.seq) && off(seq) == off(ctx.seq) && len(ctx.seq) == old(len(ctx.seq)) && keep == ctx.keep
 //@     invariant forall k int :: 0 <= k && k < len(matchPos) ==> a <= matchPos[k] && matchPos[k] < p
+//@     invariant len(matchPos) >= 1 && forall q int :: matchPos[len(matchPos)-1] < q && q < p ==> !keptG(keep, seq[q].GID)
 //@     decreases b - p
 //@   loop 3
 //@     invariant a < p && p <= b && b <= len(seq) && len(seq) == len(ctx.seq) && ref(seq) == ref(ctx.seq) && off(seq) == off(ctx.seq) && len(ctx.seq) == old(len(ctx.seq)) && keep == ctx.keep
 //@     invariant forall k int :: 0 <= k && k < len(matchPos) ==> a <= matchPos[k] && matchPos[k] < p
 //@     invariant (forall k2 int :: 0 <= k2 && k2 + 1 < len(matchPos) ==> matchPos[k2] < matchPos[k2+1]) && matchPos[0] == a && len(matchPos) == len(rule.Input) + 1
+//@     invariant (forall i2 int :: 1 <= i2 && i2 < len(matchPos) ==> l.Input[seq[matchPos[i2]].GID] == rule.Input[i2-1])
+//@     invariant (forall i3 int :: 1 <= i3 && i3 < len(matchPos) ==> keptG(keep, seq[matchPos[i3]].GID)) && (forall i4 int :: forall q int :: 0 <= i4 && i4 + 1 < len(matchPos) && matchPos[i4] < q && q < matchPos[i4+1] ==> !keptG(keep, seq[q].GID)) && forall q int :: matchPos[len(matchPos)-1] < q && q < p ==> !keptG(keep, seq[q].GID)
 //@     invariant len(matchPos) >= 1 && stackinv(ctx) && len(ctx.stack) == old(len(ctx.stack)) && (ref(matchPos) == ref(ctx.scratch) || fresh(matchPos)) && ctx.scratch == old(ctx.scratch) && rule != nil
 //@     invariant forall k int :: 0 <= k && k < len(ctx.stack) ==> !fresh(ctx.stack[k].InputPos)
 //@     decreases b - p
@@ -745,6 +756,9 @@ package gtab
 //@   ensures next >= 0 ==> ctx.stack[old(len(ctx.stack))].InputPos[0] == a && ctx.stack[old(len(ctx.stack))].EndPos == next
 //@   ensures next >= 0 ==> forall k int :: 0 <= k && k + 1 < len(ctx.stack[old(len(ctx.stack))].InputPos) ==> ctx.stack[old(len(ctx.stack))].InputPos[k] < ctx.stack[old(len(ctx.stack))].InputPos[k+1]
 //@   return_assert next >= 0 ==> len(matchPos) == len(rule.Input) + 1
+//@   return_assert next >= 0 ==> forall i int :: 0 <= i && i < len(rule.Input) ==> seq[matchPos[i+1]].GID == rule.Input[i]
+//@   return_assert next >= 0 ==> (forall i3 int :: 1 <= i3 && i3 < len(matchPos) ==> keptG(keep, seq[matchPos[i3]].GID)) && (forall i4 int :: forall q int :: 0 <= i4 && i4 + 1 < len(matchPos) && matchPos[i4] < q && q < matchPos[i4+1] ==> !keptG(keep, seq[q].GID))
+//@   return_assert next >= 0 ==> (next < b ==> keptG(keep, seq[next].GID)) && forall q int :: matchPos[len(matchPos)-1] < q && q < next ==> !keptG(keep, seq[q].GID)
 //@   opt assume_make=1
 //@   modifies ctx.scratch, ctx.stack, ctx.stack[*], ctx.scratch[*], all(nested), allelems(int), allelems(*nested)
 //@   loop 0
@@ -758,14 +772,19 @@ package gtab
 //@     invariant a <= p && p < b && glyphsNeeded >= 0 && glyphsNeeded == len(rule.Input) - iter && len(matchPos) == iter + 1 && matchPos[0] == a && rule != nil
 //@     invariant forall k int :: 0 <= k && k < len(matchPos) ==> a <= matchPos[k] && matchPos[k] <= p
 //@     invariant (forall k2 int :: 0 <= k2 && k2 + 1 < len(matchPos) ==> matchPos[k2] < matchPos[k2+1])
+//@     invariant (forall i2 int :: 1 <= i2 && i2 < len(matchPos) ==> seq[matchPos[i2]].GID == rule.Input[i2-1])
+//@     invariant (forall i3 int :: 1 <= i3 && i3 < len(matchPos) ==> keptG(keep, seq[matchPos[i3]].GID)) && (forall i4 int :: forall q int :: 0 <= i4 && i4 + 1 < len(matchPos) && matchPos[i4] < q && q < matchPos[i4+1] ==> !keptG(keep, seq[q].GID)) && matchPos[len(matchPos)-1] == p
 //@   loop 2
 //@     invariant a < p && p <= b && glyphsNeeded >= 0 && b <= len(seq) && len(seq) == len(ctx.seq) && ref(seq) == ref(ctx.seq) && off(seq) == off(ctx.seq) && len(ctx.seq) == old(len(ctx.seq)) && keep == ctx.keep
 //@     invariant forall k int :: 0 <= k && k < len(matchPos) ==> a <= matchPos[k] && matchPos[k] < p
+//@     invariant len(matchPos) >= 1 && forall q int :: matchPos[len(matchPos)-1] < q && q < p ==> !keptG(keep, seq[q].GID)
 //@     decreases b - p
 //@   loop 3
 //@     invariant a < p && p <= b && b <= len(seq) && len(seq) == len(ctx.seq) && ref(seq) == ref(ctx.seq) && off(seq) == off(ctx.seq) && len(ctx.seq) == old(len(ctx.seq)) && keep == ctx.keep
 //@     invariant forall k int :: 0 <= k && k < len(matchPos) ==> a <= matchPos[k] && matchPos[k] < p
 //@     invariant (forall k2 int :: 0 <= k2 && k2 + 1 < len(matchPos) ==> matchPos[k2] < matchPos[k2+1]) && matchPos[0] == a && len(matchPos) == len(rule.Input) + 1
+//@     invariant (forall i2 int :: 1 <= i2 && i2 < len(matchPos) ==> seq[matchPos[i2]].GID == rule.Input[i2-1])
+//@     invariant (forall i3 int :: 1 <= i3 && i3 < len(matchPos) ==> keptG(keep, seq[matchPos[i3]].GID)) && (forall i4 int :: forall q int :: 0 <= i4 && i4 + 1 < len(matchPos) && matchPos[i4] < q && q < matchPos[i4+1] ==> !keptG(keep, seq[q].GID)) && forall q int :: matchPos[len(matchPos)-1] < q && q < p ==> !keptG(keep, seq[q].GID)
 //@     invariant len(matchPos) >= 1 && stackinv(ctx) && len(ctx.stack) == old(len(ctx.stack)) && (ref(matchPos) == ref(ctx.scratch) || fresh(matchPos)) && ctx.scratch == old(ctx.scratch) && rule != nil
 //@     invariant forall k int :: 0 <= k && k < len(ctx.stack) ==> !fresh(ctx.stack[k].InputPos)
 //@     decreases b - p
@@ -779,6 +798,9 @@ package gtab
 //@   ensures next >= 0 ==> a < next && next <= b && len(ctx.stack) == old(len(ctx.stack)) + 1
 //@   ensures next >= 0 ==> len(ctx.stack[old(len(ctx.stack))].InputPos) == len(l.Input) && ctx.stack[old(len(ctx.stack))].InputPos[0] == a && ctx.stack[old(len(ctx.stack))].EndPos == next
 //@   ensures next >= 0 ==> forall k int :: 0 <= k && k + 1 < len(l.Input) ==> ctx.stack[old(len(ctx.stack))].InputPos[k] < ctx.stack[old(len(ctx.stack))].InputPos[k+1]
+//@   return_assert next >= 0 ==> (forall i2 int :: 0 <= i2 && i2 < len(matchPos) ==> l.Input[i2][seq[matchPos[i2]].GID])
+//@   return_assert next >= 0 ==> (forall i3 int :: 1 <= i3 && i3 < len(matchPos) ==> keptG(keep, seq[matchPos[i3]].GID)) && (forall i4 int :: forall q int :: 0 <= i4 && i4 + 1 < len(matchPos) && matchPos[i4] < q && q < matchPos[i4+1] ==> !keptG(keep, seq[q].GID))
+//@   return_assert next >= 0 ==> (next < b ==> keptG(keep, seq[next].GID)) && forall q int :: matchPos[len(matchPos)-1] < q && q < next ==> !keptG(keep, seq[q].GID)
 //@   opt assume_make=1
 //@   modifies ctx.scratch, ctx.stack, ctx.stack[*], ctx.scratch[*], all(nested), allelems(int), allelems(*nested)
 //@   loop 0
@@ -788,14 +810,19 @@ package gtab
 //@     invariant a <= p && p < b && glyphsNeeded >= 0 && glyphsNeeded == len(l.Input) - 1 - iter && len(matchPos) == iter + 1 && matchPos[0] == a
 //@     invariant forall k int :: 0 <= k && k < len(matchPos) ==> a <= matchPos[k] && matchPos[k] <= p
 //@     invariant (forall k2 int :: 0 <= k2 && k2 + 1 < len(matchPos) ==> matchPos[k2] < matchPos[k2+1])
+//@     invariant (forall i2 int :: 0 <= i2 && i2 < len(matchPos) ==> l.Input[i2][seq[matchPos[i2]].GID])
+//@     invariant (forall i3 int :: 1 <= i3 && i3 < len(matchPos) ==> keptG(keep, seq[matchPos[i3]].GID)) && (forall i4 int :: forall q int :: 0 <= i4 && i4 + 1 < len(matchPos) && matchPos[i4] < q && q < matchPos[i4+1] ==> !keptG(keep, seq[q].GID)) && matchPos[len(matchPos)-1] == p
 //@   loop 1
 //@     invariant a < p && p <= b && glyphsNeeded >= 0 && b <= len(seq) && len(seq) == len(ctx.seq) && ref(seq) == ref(ctx.seq) && off(seq) == off(ctx.seq) && len(ctx.seq) == old(len(ctx.seq)) && keep == ctx.keep
 //@     invariant forall k int :: 0 <= k && k < len(matchPos) ==> a <= matchPos[k] && matchPos[k] < p
+//@     invariant len(matchPos) >= 1 && forall q int :: matchPos[len(matchPos)-1] < q && q < p ==> !keptG(keep, seq[q].GID)
 //@     decreases b - p
 //@   loop 2
 //@     invariant a < p && p <= b && b <= len(seq) && len(seq) == len(ctx.seq) && ref(seq) == ref(ctx.seq) && off(seq) == off(ctx.seq) && len(ctx.seq) == old(len(ctx.seq)) && keep == ctx.keep
 //@     invariant forall k int :: 0 <= k && k < len(matchPos) ==> a <= matchPos[k] && matchPos[k] < p
 //@     invariant (forall k2 int :: 0 <= k2 && k2 + 1 < len(matchPos) ==> matchPos[k2] < matchPos[k2+1]) && matchPos[0] == a && len(matchPos) == len(l.Input)
+//@     invariant (forall i2 int :: 0 <= i2 && i2 < len(matchPos) ==> l.Input[i2][seq[matchPos[i2]].GID])
+//@     invariant (forall i3 int :: 1 <= i3 && i3 < len(matchPos) ==> keptG(keep, seq[matchPos[i3]].GID)) && (forall i4 int :: forall q int :: 0 <= i4 && i4 + 1 < len(matchPos) && matchPos[i4] < q && q < matchPos[i4+1] ==> !keptG(keep, seq[q].GID)) && forall q int :: matchPos[len(matchPos)-1] < q && q < p ==> !keptG(keep, seq[q].GID)
 //@     invariant len(matchPos) >= 1 && stackinv(ctx) && len(ctx.stack) == old(len(ctx.stack)) && (ref(matchPos) == ref(ctx.scratch) || fresh(matchPos)) && ctx.scratch == old(ctx.scratch)
 //@     invariant forall k int :: 0 <= k && k < len(ctx.stack) ==> !fresh(ctx.stack[k].InputPos)
 //@     decreases b - p
@@ -812,6 +839,9 @@ package gtab
 //@   ensures next >= 0 ==> ctx.stack[old(len(ctx.stack))].InputPos[0] == a && ctx.stack[old(len(ctx.stack))].EndPos == next
 //@   ensures next >= 0 ==> forall k int :: 0 <= k && k + 1 < len(ctx.stack[old(len(ctx.stack))].InputPos) ==> ctx.stack[old(len(ctx.stack))].InputPos[k] < ctx.stack[old(len(ctx.stack))].InputPos[k+1]
 //@   return_assert next >= 0 ==> len(matchPos) == len(rule.Input) + 1
+//@   return_assert next >= 0 ==> forall i int :: 0 <= i && i < len(rule.Input) ==> seq[matchPos[i+1]].GID == rule.Input[i]
+//@   return_assert next >= 0 ==> (forall i3 int :: 1 <= i3 && i3 < len(matchPos) ==> keptG(keep, seq[matchPos[i3]].GID)) && (forall i4 int :: forall q int :: 0 <= i4 && i4 + 1 < len(matchPos) && matchPos[i4] < q && q < matchPos[i4+1] ==> !keptG(keep, seq[q].GID))
+//@   return_assert next >= 0 ==> (next < b ==> keptG(keep, seq[next].GID)) && forall q int :: matchPos[len(matchPos)-1] < q && q < next ==> !keptG(keep, seq[q].GID)
 //@   opt assume_make=1
 //@   modifies ctx.scratch, ctx.stack, ctx.stack[*], ctx.scratch[*], all(nested), allelems(int), allelems(*nested)
 //@   let C = stackinv(ctx) && len(ctx.stack) == old(len(ctx.stack)) && len(ctx.seq) == old(len(ctx.seq)) && ref(seq) == ref(ctx.seq) && off(seq) == off(ctx.seq) && len(seq) == len(ctx.seq) && b <= len(seq) && ctx.scratch == old(ctx.scratch) && keep == ctx.keep
@@ -834,7 +864,10 @@ package gtab
 //@     invariant forall k int :: 0 <= k && k < len(ctx.stack) ==> !fresh(ctx.stack[k].InputPos)
 //@     invariant a <= p && p < b && glyphsNeeded >= 0 && glyphsNeeded == len(rule.Input) - iter && len(matchPos) == iter + 1 && matchPos[0] == a && (forall k2 int :: 0 <= k2 && k2 + 1 < len(matchPos) ==> matchPos[k2] < matchPos[k2+1])
 //@     invariant forall k int :: 0 <= k && k < len(matchPos) ==> a <= matchPos[k] && matchPos[k] <= p
+//@     invariant (forall i2 int :: 1 <= i2 && i2 < len(matchPos) ==> seq[matchPos[i2]].GID == rule.Input[i2-1])
+//@     invariant (forall i3 int :: 1 <= i3 && i3 < len(matchPos) ==> keptG(keep, seq[matchPos[i3]].GID)) && (forall i4 int :: forall q int :: 0 <= i4 && i4 + 1 < len(matchPos) && matchPos[i4] < q && q < matchPos[i4+1] ==> !keptG(keep, seq[q].GID)) && matchPos[len(matchPos)-1] == p
 //@   loop 4
+//@     invariant len(matchPos) >= 1 && forall q int :: matchPos[len(matchPos)-1] < q && q < p ==> !keptG(keep, seq[q].GID)
 //@     invariant L && a < p && p <= b && glyphsNeeded >= 0
 //@     invariant forall k int :: 0 <= k && k < len(matchPos) ==> a <= matchPos[k] && matchPos[k] < p
 //@     decreases b - p
@@ -844,6 +877,8 @@ package gtab
 //@     invariant forall k int :: 0 <= k && k < len(ctx.stack) ==> !fresh(ctx.stack[k].InputPos)
 //@     invariant a <= next && next < b && next <= p && p < len(seq) && glyphsNeeded >= 0 && glyphsNeeded == len(rule.Lookahead) - iter && len(matchPos) == len(rule.Input) + 1 && matchPos[0] == a && (forall k2 int :: 0 <= k2 && k2 + 1 < len(matchPos) ==> matchPos[k2] < matchPos[k2+1])
 //@     invariant forall k int :: 0 <= k && k < len(matchPos) ==> a <= matchPos[k] && matchPos[k] <= next
+//@     invariant (forall i2 int :: 1 <= i2 && i2 < len(matchPos) ==> seq[matchPos[i2]].GID == rule.Input[i2-1])
+//@     invariant (forall i3 int :: 1 <= i3 && i3 < len(matchPos) ==> keptG(keep, seq[matchPos[i3]].GID)) && (forall i4 int :: forall q int :: 0 <= i4 && i4 + 1 < len(matchPos) && matchPos[i4] < q && q < matchPos[i4+1] ==> !keptG(keep, seq[q].GID)) && matchPos[len(matchPos)-1] == next
 //@   loop 6
 //@     invariant L && a <= next && next < b && next < p && p <= len(seq) && glyphsNeeded >= 0
 //@     decreases len(seq) - p
@@ -853,6 +888,8 @@ package gtab
 //@     invariant (forall k2 int :: 0 <= k2 && k2 + 1 < len(matchPos) ==> matchPos[k2] < matchPos[k2+1]) && matchPos[0] == a && len(matchPos) == len(rule.Input) + 1
 //@     invariant len(matchPos) >= 1 && stackinv(ctx) && len(ctx.stack) == old(len(ctx.stack)) && (ref(matchPos) == ref(ctx.scratch) || fresh(matchPos)) && ctx.scratch == old(ctx.scratch) && rule != nil
 //@     invariant forall k int :: 0 <= k && k < len(ctx.stack) ==> !fresh(ctx.stack[k].InputPos)
+//@     invariant (forall i2 int :: 1 <= i2 && i2 < len(matchPos) ==> seq[matchPos[i2]].GID == rule.Input[i2-1])
+//@     invariant (forall i3 int :: 1 <= i3 && i3 < len(matchPos) ==> keptG(keep, seq[matchPos[i3]].GID)) && (forall i4 int :: forall q int :: 0 <= i4 && i4 + 1 < len(matchPos) && matchPos[i4] < q && q < matchPos[i4+1] ==> !keptG(keep, seq[q].GID)) && forall q int :: matchPos[len(matchPos)-1] < q && q < next ==> !keptG(keep, seq[q].GID)
 //@     decreases b - next
 
 // Chained context, format 3 (coverage based).  The new stack entry records one
@@ -865,6 +902,9 @@ package gtab
 //@   ensures next >= 0 ==> a < next && next <= b && len(ctx.stack) == old(len(ctx.stack)) + 1
 //@   ensures next >= 0 ==> len(ctx.stack[old(len(ctx.stack))].InputPos) == len(l.Input) && ctx.stack[old(len(ctx.stack))].InputPos[0] == a && ctx.stack[old(len(ctx.stack))].EndPos == next
 //@   ensures next >= 0 ==> forall k int :: 0 <= k && k + 1 < len(l.Input) ==> ctx.stack[old(len(ctx.stack))].InputPos[k] < ctx.stack[old(len(ctx.stack))].InputPos[k+1]
+//@   return_assert next >= 0 ==> (forall i2 int :: 0 <= i2 && i2 < len(matchPos) ==> l.Input[i2][seq[matchPos[i2]].GID])
+//@   return_assert next >= 0 ==> (forall i3 int :: 1 <= i3 && i3 < len(matchPos) ==> keptG(keep, seq[matchPos[i3]].GID)) && (forall i4 int :: forall q int :: 0 <= i4 && i4 + 1 < len(matchPos) && matchPos[i4] < q && q < matchPos[i4+1] ==> !keptG(keep, seq[q].GID))
+//@   return_assert next >= 0 ==> (next < b ==> keptG(keep, seq[next].GID)) && forall q int :: matchPos[len(matchPos)-1] < q && q < next ==> !keptG(keep, seq[q].GID)
 //@   opt assume_make=1
 //@   modifies ctx.scratch, ctx.stack, ctx.stack[*], ctx.scratch[*], all(nested), allelems(int), allelems(*nested)
 //@   let C = stackinv(ctx) && len(ctx.stack) == old(len(ctx.stack)) && len(ctx.seq) == old(len(ctx.seq)) && ref(seq) == ref(ctx.seq) && off(seq) == off(ctx.seq) && len(seq) == len(ctx.seq) && b <= len(seq) && ctx.scratch == old(ctx.scratch) && keep == ctx.keep
@@ -880,7 +920,11 @@ package gtab
 //@     invariant C && NF && INC && (ref(matchPos) == ref(ctx.scratch) || fresh(matchPos))
 //@     invariant a <= p && p <= b && glyphsNeeded == len(l.Input) - iter && len(matchPos) == iter && (iter == 0 ==> p == a) && (iter >= 1 ==> a < p && matchPos[0] == a)
 //@     invariant forall k int :: 0 <= k && k < len(matchPos) ==> a <= matchPos[k] && matchPos[k] < p
+//@     invariant (forall i2 int :: 0 <= i2 && i2 < len(matchPos) ==> l.Input[i2][seq[matchPos[i2]].GID])
+//@     invariant (forall i3 int :: 1 <= i3 && i3 < len(matchPos) ==> keptG(keep, seq[matchPos[i3]].GID)) && (forall i4 int :: forall q int :: 0 <= i4 && i4 + 1 < len(matchPos) && matchPos[i4] < q && q < matchPos[i4+1] ==> !keptG(keep, seq[q].GID))
+//@     invariant iter >= 1 ==> (p < b ==> keptG(keep, seq[p].GID)) && forall q int :: matchPos[len(matchPos)-1] < q && q < p ==> !keptG(keep, seq[q].GID)
 //@   loop 3
+//@     invariant len(matchPos) >= 1 && forall q int :: matchPos[len(matchPos)-1] < q && q < p ==> !keptG(keep, seq[q].GID)
 //@     invariant L && a < p && p <= b && glyphsNeeded >= 0
 //@     invariant forall k int :: 0 <= k && k < len(matchPos) ==> a <= matchPos[k] && matchPos[k] < p
 //@     decreases b - p
@@ -888,6 +932,9 @@ package gtab
 //@     invariant C && NF && INC && (ref(matchPos) == ref(ctx.scratch) || fresh(matchPos))
 //@     invariant a < next && next <= b && next <= p && p <= len(seq) && glyphsNeeded == len(l.Lookahead) - iter && len(matchPos) == len(l.Input) && matchPos[0] == a
 //@     invariant forall k int :: 0 <= k && k < len(matchPos) ==> a <= matchPos[k] && matchPos[k] < next
+//@     invariant (forall i2 int :: 0 <= i2 && i2 < len(matchPos) ==> l.Input[i2][seq[matchPos[i2]].GID])
+//@     invariant (forall i3 int :: 1 <= i3 && i3 < len(matchPos) ==> keptG(keep, seq[matchPos[i3]].GID)) && (forall i4 int :: forall q int :: 0 <= i4 && i4 + 1 < len(matchPos) && matchPos[i4] < q && q < matchPos[i4+1] ==> !keptG(keep, seq[q].GID))
+//@     invariant (next < b ==> keptG(keep, seq[next].GID)) && forall q int :: matchPos[len(matchPos)-1] < q && q < next ==> !keptG(keep, seq[q].GID)
 //@   loop 5
 //@     invariant L && a < next && next <= b && next < p && p <= len(seq) && glyphsNeeded >= 0
 //@     decreases len(seq) - p
@@ -902,6 +949,9 @@ package gtab
 //@   ensures next >= 0 ==> ctx.stack[old(len(ctx.stack))].InputPos[0] == a && ctx.stack[old(len(ctx.stack))].EndPos == next
 //@   ensures next >= 0 ==> forall k int :: 0 <= k && k + 1 < len(ctx.stack[old(len(ctx.stack))].InputPos) ==> ctx.stack[old(len(ctx.stack))].InputPos[k] < ctx.stack[old(len(ctx.stack))].InputPos[k+1]
 //@   return_assert next >= 0 ==> len(matchPos) == len(rule.Input) + 1
+//@   return_assert next >= 0 ==> forall i int :: 0 <= i && i < len(rule.Input) ==> l.Input[seq[matchPos[i+1]].GID] == rule.Input[i]
+//@   return_assert next >= 0 ==> (forall i3 int :: 1 <= i3 && i3 < len(matchPos) ==> keptG(keep, seq[matchPos[i3]].GID)) && (forall i4 int :: forall q int :: 0 <= i4 && i4 + 1 < len(matchPos) && matchPos[i4] < q && q < matchPos[i4+1] ==> !keptG(keep, seq[q].GID))
+//@   return_assert next >= 0 ==> (next < b ==> keptG(keep, seq[next].GID)) && forall q int :: matchPos[len(matchPos)-1] < q && q < next ==> !keptG(keep, seq[q].GID)
 //@   opt assume_make=1
 //@   modifies ctx.scratch, ctx.stack, ctx.stack[*], ctx.scratch[*], all(nested), allelems(int), allelems(*nested)
 //@   let C = stackinv(ctx) && len(ctx.stack) == old(len(ctx.stack)) && len(ctx.seq) == old(len(ctx.seq)) && ref(seq) == ref(ctx.seq) && off(seq) == off(ctx.seq) && len(seq) == len(ctx.seq) && b <= len(seq) && ctx.scratch == old(ctx.scratch) && keep == ctx.keep
@@ -924,7 +974,10 @@ package gtab
 //@     invariant forall k int :: 0 <= k && k < len(ctx.stack) ==> !fresh(ctx.stack[k].InputPos)
 //@     invariant a <= p && p < b && glyphsNeeded >= 0 && glyphsNeeded == len(rule.Input) - iter && len(matchPos) == iter + 1 && matchPos[0] == a && (forall k2 int :: 0 <= k2 && k2 + 1 < len(matchPos) ==> matchPos[k2] < matchPos[k2+1])
 //@     invariant forall k int :: 0 <= k && k < len(matchPos) ==> a <= matchPos[k] && matchPos[k] <= p
+//@     invariant (forall i2 int :: 1 <= i2 && i2 < len(matchPos) ==> l.Input[seq[matchPos[i2]].GID] == rule.Input[i2-1])
+//@     invariant (forall i3 int :: 1 <= i3 && i3 < len(matchPos) ==> keptG(keep, seq[matchPos[i3]].GID)) && (forall i4 int :: forall q int :: 0 <= i4 && i4 + 1 < len(matchPos) && matchPos[i4] < q && q < matchPos[i4+1] ==> !keptG(keep, seq[q].GID)) && matchPos[len(matchPos)-1] == p
 //@   loop 4
+//@     invariant len(matchPos) >= 1 && forall q int :: matchPos[len(matchPos)-1] < q && q < p ==> !keptG(keep, seq[q].GID)
 //@     invariant L && a < p && p <= b && glyphsNeeded >= 0
 //@     invariant forall k int :: 0 <= k && k < len(matchPos) ==> a <= matchPos[k] && matchPos[k] < p
 //@     decreases b - p
@@ -934,6 +987,8 @@ package gtab
 //@     invariant forall k int :: 0 <= k && k < len(ctx.stack) ==> !fresh(ctx.stack[k].InputPos)
 //@     invariant a <= next && next < b && next <= p && p < len(seq) && glyphsNeeded >= 0 && glyphsNeeded == len(rule.Lookahead) - iter && len(matchPos) == len(rule.Input) + 1 && matchPos[0] == a && (forall k2 int :: 0 <= k2 && k2 + 1 < len(matchPos) ==> matchPos[k2] < matchPos[k2+1])
 //@     invariant forall k int :: 0 <= k && k < len(matchPos) ==> a <= matchPos[k] && matchPos[k] <= next
+//@     invariant (forall i2 int :: 1 <= i2 && i2 < len(matchPos) ==> l.Input[seq[matchPos[i2]].GID] == rule.Input[i2-1])
+//@     invariant (forall i3 int :: 1 <= i3 && i3 < len(matchPos) ==> keptG(keep, seq[matchPos[i3]].GID)) && (forall i4 int :: forall q int :: 0 <= i4 && i4 + 1 < len(matchPos) && matchPos[i4] < q && q < matchPos[i4+1] ==> !keptG(keep, seq[q].GID)) && matchPos[len(matchPos)-1] == next
 //@   loop 6
 //@     invariant L && a <= next && next < b && next < p && p <= len(seq) && glyphsNeeded >= 0
 //@     decreases len(seq) - p
@@ -943,6 +998,8 @@ package gtab
 //@     invariant (forall k2 int :: 0 <= k2 && k2 + 1 < len(matchPos) ==> matchPos[k2] < matchPos[k2+1]) && matchPos[0] == a && len(matchPos) == len(rule.Input) + 1
 //@     invariant len(matchPos) >= 1 && stackinv(ctx) && len(ctx.stack) == old(len(ctx.stack)) && (ref(matchPos) == ref(ctx.scratch) || fresh(matchPos)) && ctx.scratch == old(ctx.scratch) && rule != nil
 //@     invariant forall k int :: 0 <= k && k < len(ctx.stack) ==> !fresh(ctx.stack[k].InputPos)
+//@     invariant (forall i2 int :: 1 <= i2 && i2 < len(matchPos) ==> l.Input[seq[matchPos[i2]].GID] == rule.Input[i2-1])
+//@     invariant (forall i3 int :: 1 <= i3 && i3 < len(matchPos) ==> keptG(keep, seq[matchPos[i3]].GID)) && (forall i4 int :: forall q int :: 0 <= i4 && i4 + 1 < len(matchPos) && matchPos[i4] < q && q < matchPos[i4+1] ==> !keptG(keep, seq[q].GID)) && forall q int :: matchPos[len(matchPos)-1] < q && q < next ==> !keptG(keep, seq[q].GID)
 //@     decreases b - next
 
 // readSeqContext2: total reader; every rule pointer of the result is non-nil
